@@ -32,11 +32,19 @@ package remote
 //@   loop 0 invariant[C06] i >= allRegion.b && aligned(i, b.chunkSize) && aligned(allRegion.b, b.chunkSize)
 //@   loop 0 decreases min(allRegion.e, b.size) - i + b.chunkSize
 
+// A region set is well formed when its regions are valid, sorted, disjoint and not adjacent. add keeps it so for a
+// valid region (the merged/inserted region is kept apart from every region already passed over: I4).
+//@ pure validR(b int, e int) bool = 0 <= b && b <= e && e < 1<<62
+//@ pure RS(rs *regionSet) bool = (forall k int :: 0 <= k && k < len(rs.rs) ==> validR(rs.rs[k].b, rs.rs[k].e)) && (forall a int, b int :: 0 <= a && a < b && b < len(rs.rs) ==> rs.rs[a].e + 1 < rs.rs[b].b)
 //@ func (rs *regionSet) add
 //@   props C06,C04
 //@   modifies rs.rs, heap("E:fs/remote.region")
 //@   loop 0 invariant[C06,C04] -1 <= i && i < len(rs.rs)
+//@   loop 0 invariant[C06] old(RS(rs)) && validR(old(r.b), old(r.e)) ==> RS(rs) && validR(r.b, r.e) && (forall k int :: i < k && k < len(rs.rs) ==> r.e + 1 < rs.rs[k].b)
 //@   ensures[C06] len(rs.rs) >= 1
+//@   ensures[C06] old(RS(rs)) && validR(old(r.b), old(r.e)) ==> RS(rs)
+//@   loop 0 invariant[C06] r.b <= old(r.b) && old(r.e) <= r.e
+//@   ensures[C06] old(RS(rs)) && validR(old(r.b), old(r.e)) ==> (exists k int :: 0 <= k && k < len(rs.rs) && rs.rs[k].b <= old(r.b) && old(r.e) <= rs.rs[k].e)
 //@ func superRegion
 //@   props C06,C04
 //@   requires len(regs) > 0
@@ -92,3 +100,24 @@ package remote
 //@   requires f.tr != nil && mayCarry(ref(f.orgHeader), f.blobURL)
 //@   loop 0 invariant rangeidx >= 0 ==> len(s.rs) >= 1
 //@   loop 1 invariant rangeidx >= 0 ==> len(ranges) >= 1
+
+// ---- C06: fetchRange reports success only when every requested region was delivered ----
+// delivered[ref(allData)]: every writer of the request map has received the bytes of its region. ASSUMED (the helpers'
+// bodies are not verified for it): a singleflight result that is not shared is the result of running fetchRegions here,
+// whose success delivers every region; handleSharedFetch succeeds only after copying every region this caller did not
+// fetch itself. PROVED: fetchRange returns nil on no other path -- in particular the result of the retry is not dropped.
+//@ ghost delivered map[ref]bool
+//@ func (b *blob) handleSharedFetch
+//@   trusted
+//@   modifies delivered[*]
+//@   ensures result == nil ==> delivered[ref(allData)]
+//@   ensures forall x ref :: x != ref(allData) ==> delivered[x] == old(delivered[x])
+// (index safety of makeSyncKey rests on a map range running len(map) times; not part of this property)
+//@ func makeSyncKey
+//@   trusted
+//@   ensures true
+//@ func (b *blob) fetchRange
+//@   props C06
+//@   modifies anything
+//@   assume after "_, err, shared := b.fetchedRegionGroup.Do(key, func() (any, error) {" : err == nil && !shared ==> delivered[ref(allData)]
+//@   ensures[C06] result == nil && len(allData) != 0 ==> delivered[ref(allData)]
